@@ -104,7 +104,7 @@ def stepAny (cfg : Cfg) (rec : Pred V → R V) (q : Pred V) : R V :=
       | .off => ret (.any .tt)
     | .ff => ret .ff                                    -- ANY2
     | .ne v => ret (.not (.all (.eq v)))                -- ANY3
-    | .not q' => bindR (rec q') fun o2 => ret (.not (.all o2))   -- ANY4
+    | .not q' => ret (.not (.all q'))                   -- ANY4 (after fixes/any-no-reoptimise.diff: no second optimisation of q')
     | o => ret (.any o)                                 -- ANY5
 
 /-! ### not_optimizer.py -/
